@@ -243,6 +243,14 @@ theorem parse_iff (s : List Char) (gs : List Seg) :
     | nil => exact absurd rfl hne
     | cons g gs => rfl
 
+/-- C15 (matcher.rs:279 `XPath::from_str(field_path.as_str()).unwrap()`): whatever prefix the un-anchored
+    `field_path` rule matched inside a match string, that span re-parses to the same segments -/
+theorem matched_span_reparses (f : Nat) (s : List Char) (g : Seg) (gs : List Seg) (r : List Char)
+    (h : many f s = (g :: gs, r)) :
+    s = (g :: gs).flatMap Seg.render ++ r ∧ parse ((g :: gs).flatMap Seg.render) = some (g :: gs) := by
+  have ms := many_sound f s (g :: gs) r h
+  exact ⟨ms.2, (parse_iff _ _).mpr ⟨by simp, ms.1, rfl⟩⟩
+
 -- non-vacuity
 example : parse ".a.\"b c\".d".toList = some [.plain ['a'], .quoted "b c".toList, .plain ['d']] := by decide
 example : parse ".a.b garbage".toList = none := by decide
